@@ -281,7 +281,7 @@ def run_check(prop, tier, seed):
             if line not in known_lines:
                 known_lines.append(line)
     paths = []
-    replay_dir = os.path.join(VERIF, "replays")
+    replay_dir = os.path.join(D.OUT, "replays")
     for sig, (binary, v, count) in sorted(unknown.items(), key=lambda kv: kv[0])[:4]:
         if getattr(v, "prebuilt_replay", None):
             paths.append(v.prebuilt_replay)
